@@ -93,8 +93,8 @@ _PREC_BITWISE_AND = 203
 _PREC_SHIFT = 205
 _PREC_PLUS = 210
 _PREC_TIMES = 220
-_PREC_POWER = 230
-_PREC_UNARY = 240
+_PREC_UNARY = 230
+_PREC_POWER = 240
 _PREC_CALL = 250
 
 
